@@ -192,6 +192,7 @@ func (d *Disk) step(op, path string, rate int, mutating bool, errs ...syscall.Er
 			d.Images = append(d.Images, img)
 			res = "image(" + img.Note + ") "
 			d.count("fault:crash-image")
+			d.count("probe:crash-before-" + op)
 		}
 		if rate > 0 && len(errs) > 0 && d.F.Budget != 0 && t.Chance(rate) {
 			e := errs[t.Choose(len(errs))]
@@ -391,8 +392,7 @@ func Rename(oldpath, newpath string) error {
 	if odir == ndir {
 		ndir.pending = append(ndir.pending, dirop{kind: "rename", name: nbase, oldname: obase, ino: n})
 	} else {
-		// across directories the two halves are independent in this model,
-		// except that the link is never lost while the unlink persists
+		// across directories the two halves are independent in this model
 		ndir.pending = append(ndir.pending, dirop{kind: "link", name: nbase, ino: n})
 		odir.pending = append(odir.pending, dirop{kind: "unlink", name: obase, ino: n})
 	}
@@ -613,7 +613,7 @@ func (f *File) Close() error {
 	if f.wr {
 		rate = d.F.Close
 	}
-	err := d.step("close", f.name, rate, false, syscall.EIO, syscall.EINTR)
+	err := d.step("close", f.name, rate, f.wr, syscall.EIO, syscall.EINTR)
 	f.closed = true
 	return err
 }
